@@ -198,6 +198,15 @@ func (s *State) wellTyped(v Term, t types.Type) Term {
 			return mkAnd(base, mkImp(mkNot(mkEq(v, intLit(0))), mkAnd(cs...)))
 		}
 		return base
+	case *types.Interface:
+		// a value of a sealed interface type is nil or one of the known implementations
+		if v.Sort == sortAny && s.w.isSealed(t) && u.NumMethods() > 0 {
+			alts := []Term{mkEq(v, Term{"any.nil", sortAny})}
+			for _, c := range s.w.implsOf(u) {
+				alts = append(alts, s.w.isCon(c, v))
+			}
+			return mkOr(alts...)
+		}
 	case *types.Map, *types.Signature, *types.Chan:
 		return mkAnd(app("Bool", ">=", v, intLit(0)), app("Bool", "<=", v, s.alloc))
 	case *types.Basic:
